@@ -124,3 +124,45 @@ func (c *Case) HookMarks() []uint64 {
 	}
 	return ids
 }
+
+// RunTree builds the parent logger once, derives every kid from that SAME parent value (siblings), and only then emits
+// the event through each kid in order: what one sibling does to shared structures shows up in another's output.
+// Returns one observation per kid; kid i's model case is the chain parent ++ [kids[i]].
+func RunTree(s Settings, now time.Time, parent []Step, kids []Step, level int, ops []Op, msg []byte) []Obs {
+	restore := s.Apply()
+	defer restore()
+	zerolog.SetGlobalLevel(zerolog.Level(-128))
+	defer zerolog.SetGlobalLevel(zerolog.DebugLevel)
+	zerolog.TimestampFunc = func() time.Time { return now }
+	w := &capture{}
+	l := zerolog.New(w).Level(zerolog.Level(-128))
+	for _, st := range parent {
+		l = ApplyStep(l, st, w)
+	}
+	ls := make([]zerolog.Logger, len(kids))
+	for i, k := range kids {
+		ls[i] = ApplyStep(l, k, w)
+	}
+	out := make([]Obs, len(kids))
+	for i := range kids {
+		func() {
+			Marks = nil
+			before := len(w.lines)
+			defer func() {
+				if r := recover(); r != nil {
+					out[i].Panic = r
+				}
+				out[i].Marks = append([]uint64{}, Marks...)
+				out[i].Writes = len(w.lines) - before
+				if out[i].Writes > 0 {
+					out[i].Written = true
+					out[i].Line = w.lines[before]
+				}
+			}()
+			e := ls[i].WithLevel(zerolog.Level(level))
+			ApplyEvent(e, ops)
+			e.Msg(string(msg))
+		}()
+	}
+	return out
+}
